@@ -37,7 +37,9 @@ theorem trim_infix (src : Input) :
 /-- offset (in characters) of the error span in the *untrimmed* source — the
 `span.as_ptr() - input.as_ptr()` of `ParseError::new` -/
 def errOffset (src : Input) (e : LexErr) : Nat :=
-  trimStartCount src + ((trim src).length - e.pos.length)
+  -- `str::trim` of an all-whitespace string is the empty slice at offset 0
+  if (trim src).isEmpty then 0
+  else trimStartCount src + ((trim src).length - e.pos.length)
 
 /-- an error span inside `trim src` is a span inside `src` at `errOffset` -/
 theorem errOk_in_src {src : Input} {e : LexErr} (h : ErrOk (trim src) e) :
@@ -47,13 +49,26 @@ theorem errOk_in_src {src : Input} {e : LexErr} (h : ErrOk (trim src) e) :
   obtain ⟨⟨pre, hpre⟩, hl⟩ := h
   have hlp : (trim src).length = pre.length + e.pos.length := by
     rw [← hpre, List.length_append]
-  refine ⟨a ++ pre, b, ?_, ?_, ?_⟩
-  · rw [List.append_assoc a pre, hpre]; exact hsrc
-  · unfold errOffset; rw [List.length_append, hlen, hlp]; omega
-  · have := congrArg List.length hsrc
-    simp only [List.length_append] at this
-    unfold errOffset
-    omega
+  by_cases hempty : (trim src).isEmpty = true
+  · -- whitespace-only source: the trimmed slice, hence the span, is empty and sits at offset 0
+    have ht : trim src = [] := List.isEmpty_iff.mp hempty
+    have hpos : e.pos = [] := by
+      rw [ht] at hpre
+      exact (List.append_eq_nil_iff.mp hpre).2
+    have hlen0 : e.len = 0 := by rw [hpos] at hl; simpa using hl
+    refine ⟨[], src, ?_, ?_, ?_⟩
+    · simp [hpos]
+    · simp [errOffset, hempty]
+    · simp [errOffset, hempty, hlen0]
+  · refine ⟨a ++ pre, b, ?_, ?_, ?_⟩
+    · rw [List.append_assoc a pre, hpre]; exact hsrc
+    · unfold errOffset; simp only [hempty]; rw [List.length_append, hlen, hlp]; simp
+    · have := congrArg List.length hsrc
+      simp only [List.length_append] at this
+      unfold errOffset
+      simp only [hempty]
+      simp
+      omega
 
 theorem parseFilter_error_in_src {env : PEnv} {src : Input} {e : LexErr}
     (h : parseFilter env src = .error e) :
